@@ -146,6 +146,15 @@ Inductive mechanism :=
 | MRedirect (code : Z) (to : option string)   (* configured code (0 = unset); rendered `to`, None = template fails *)
 | MWWW (realm : string).                      (* configured realm ("" = unset) *)
 
+(** errorhandlers.newRedirectErrorHandler (since fix: 6c5864d, finding C20-F1b):
+    `code` is validated with `omitempty,gte=300,lte=399` whatever the source of the
+    configuration; an unset code (0) becomes 302 at execution time.  [None] = the
+    handler cannot be created. *)
+Definition redirect_code_ok (code : Z) : bool := (code =? 0) || ((300 <=? code) && (code <=? 399)).
+
+Definition create_redirect (code : Z) (to : option string) : option mechanism :=
+  if redirect_code_ok code then Some (MRedirect code to) else None.
+
 (** what a mechanism's Execute does to the request context and returns *)
 Record handled := {
   hd_ret : option err;                (* returned error (None = nil) *)
